@@ -283,6 +283,7 @@ var pureList = map[string]bool{
 	"math.Round": true, "math.Floor": true, "math.Ceil": true, "math.Abs": true, "math.IsNaN": true, "math.IsInf": true, "math.Max": true, "math.Min": true,
 	"github.com/cloudflare/pint/internal/output.HumanizeDuration": true,
 	"regexp.QuoteMeta": true,
+	"(*github.com/prometheus/prometheus/promql/parser.VectorSelector).String": true, "(*github.com/prometheus/prometheus/model/labels.Matcher).String": true,
 	"net/http.StatusText": true,
 	"unicode.IsSpace": true, "unicode.IsLetter": true, "unicode.IsDigit": true, "unicode.IsUpper": true, "unicode.IsLower": true,
 	"unicode/utf8.RuneLen": true, "unicode/utf8.RuneCountInString": true,
